@@ -298,3 +298,18 @@ def check_C08(res, replay):
                     "every molecule of the build stream is constructed once against the deterministic model; library + low-symmetry distorted centres (>= 3 neighbours with "
                     "pairwise different angles) are constructed 24 (quick) / 64 (thorough) times in one process — each HashSet draws fresh keys — comparing connectivity, assigned "
                     "types, sorted term lists bit for bit and UFF energy/gradient to 1e-9; the command-line tool is run 4 (quick) / 8 (thorough) times per input comparing opt.xyz bytes")
+
+
+# ---------------------------------------------------------------------------------------------------- C17
+
+def check_C17(res, replay):
+    res.trusted = TB_COMMON + ["hand model OptRs.Model wrapper state machine of PyMoleculeWrapper; hook module optrs::verif::Wrapper drives the private type from Rust",
+                               "axioms audited: subset of {propext, Classical.choice, Quot.sound}"]
+    res.assumptions = ["a panic of a wrapper method is what Python sees as an exception ('rejected')",
+                       "the file half of 'scripted = file' (text -> atoms and coordinates) is C13/C14; here both doors are given the same atoms and coordinates",
+                       "build_3d is exercised only where its guard must refuse (an accepted build draws random coordinates: C19)"]
+    return standard(res, ["tables", "terms", "uff"], ["OptRs.Props.C17", "OptRs.Props.C16"], [("wrapper", [], "wrapper")], "proof",
+                    "lake build OptRs.Props.C17 OptRs.Props.C16 + #print axioms audit",
+                    "random call sequences (2-12 calls) of set_coordinates (different coordinate sets, 15% wrong lengths) / generate_connectivty / set_bond_orders (plausible "
+                    "matrices, wrong sizes, unsupported values) / build_3d (guard) / optimise over library and random molecules, the full state compared with the model after "
+                    "every call; plus scripted-vs-file construction of each molecule (connectivity, coordinate bits, UFF energy)", extra_audit=BUILD_AUDIT + ["OptRs.Model.Wrapper"])
